@@ -128,6 +128,7 @@ type Terminal struct {
 	Log           []LogEntry
 	Graphics      []GraphicsOp
 	UB            []string // unspecified-behaviour events
+	keepLog       bool
 	Bells         int
 	Clipboard     []string
 	Notifications []string
@@ -145,7 +146,7 @@ type Terminal struct {
 }
 
 func New(cols, rows int, prof Profile) *Terminal {
-	t := &Terminal{Cols: cols, Rows: rows, Prof: prof}
+	t := &Terminal{Cols: cols, Rows: rows, Prof: prof, keepLog: KeepLog}
 	t.p.out = t.dispatch
 	t.HardReset()
 	return t
@@ -243,7 +244,15 @@ func (t *Terminal) Scramble() {
 	t.lastValid = false
 }
 
+// KeepLog: new terminals record every sequence they receive in Log. Only the harness that
+// reads the log (C07) turns it on: a long-lived helper session would otherwise grow without
+// bound (the thorough tier of C17 ran out of memory on it).
+var KeepLog bool
+
 func (t *Terminal) logSeq(raw, class string) {
+	if !t.keepLog {
+		return
+	}
 	t.Log = append(t.Log, LogEntry{Raw: raw, Class: class})
 }
 
